@@ -1,11 +1,17 @@
 (* Executable instance of the parser model's two parameters, used by the extracted driver. *)
 From Coq Require Import Ascii String List NArith ZArith Bool.
-Require Import Bytes NumParse Restartable TablesGen ParserModel.
+Require Import Bytes NumParse Restartable TablesGen ParserModel NetModel HeaderModel.
 Import ListNotations.
 
-(* typed headers other than Content-Length: the correspondence generators only use values
-   these parsers accept, so the instance never throws *)
-Definition typed_other_inst (id : N) (v : bytes) : option err := None.
+(* typed headers other than Content-Length.  Host: AddressParser + Port(text) throw
+   std::invalid_argument on a malformed address or a port that is not a number in 0..65535 - on every
+   occurrence of the header, also one that the first-wins collection then discards.  For the other
+   typed headers the correspondence generators only use values their parsers accept. *)
+Definition id_host : option N := reg_lookup (list_of_string "Host").
+Definition typed_other_inst (id : N) (v : bytes) : option err :=
+  if match id_host with Some i => N.eqb i id | None => false end then
+    match host_parse v with Some _ => None | None => Some EExc end
+  else None.
 
 (* Cookie::fromRaw restricted to what the parser observes: name up to '=', value up to ';' *)
 Definition set_cookie_inst (v : bytes) : option (bytes * bytes) :=
